@@ -91,6 +91,33 @@ Proof. exact lines_f_partition. Qed.
 Theorem C04_ftp_fuel_suffices : forall fuel s, length s < fuel -> snd (str_obs (ftp_prog fuel) s) = 0%N.
 Proof. exact ftp_fuel_enough. Qed.
 
+
+(* ---- ldap: BER envelope framing through one reader; one event per complete message ---- *)
+Theorem C04_ldap_full : C04_full SVC_LDAP.
+Proof. exact ldap_run. Qed.
+
+Theorem C04_ldap_persistent : forall fuel, persistent (ldap_prog fuel).
+Proof. exact ldap_persistent. Qed.
+
+(* ---- telnet: the terminal's line discipline (its own reader, not bufio) ---- *)
+(* feeding the segments Read after Read is feeding their concatenation (induction over segments) *)
+Theorem C04_telnet_reads_are_the_stream : forall segs st, tn_feed_segs st segs = tn_feed st (concat segs).
+Proof. exact tn_feed_segs_concat. Qed.
+
+Theorem C04_telnet_full : forall segs, run_model SVC_TELNET segs = reference SVC_TELNET (concat segs).
+Proof. exact telnet_run. Qed.
+
+Theorem C04_telnet_segmentation_invariant : forall s1 s2, concat s1 = concat s2 -> tn_run s1 = tn_run s2.
+Proof. exact telnet_segmentation_invariant. Qed.
+
+(* a command of text bytes (>= 32, not DEL) with CRs anywhere, ended by LF: exactly one
+   session event carrying the text without the CRs *)
+Theorem C04_telnet_text_line_one_event : forall l line,
+  forallb tn_text_or_cr l = true -> length line + length (filter tn_text l) <= TN_MAXLINE ->
+  tn_feed (mkTn TSess line (length line)) (l ++ [LF]) =
+  (mkTn TSess [] 0, [mkEv EV_TN_CMD [line ++ filter tn_text l]]).
+Proof. exact tn_session_line. Qed.
+
 (* ---- datagram services: each datagram is decoded and reported on its own, whatever its length ---- *)
 Theorem C04_tftp_each_datagram : C04_full_datagram SVC_TFTP.
 Proof. exact tftp_datagram. Qed.
@@ -136,6 +163,20 @@ Example C04_dns_nonvacuous :
   run_impl SVC_DNS [[18;52;1;0;0;1;0;0;0;0;0;0;1;120;0;0;1;0;1]%N] = ([mkEv EV_DNS [[52;54;54;48]%N]], 0%N).
 Proof. vm_compute. reflexivity. Qed.
 
+
+Example C04_telnet_nonvacuous :
+  let s := [114;111;111;116;13;10;115;101;99;114;101;116;13;10;117;110;97;109;101;32;45;97;13;10]%N in
+  tn_run [firstn 5 s; skipn 5 s] = tn_run [s] /\
+  fst (tn_run [firstn 5 s; skipn 5 s]) =
+  [mkEv EV_TN_CONNECT []; mkEv EV_TN_AUTH [[114;111;111;116]%N; [115;101;99;114;101;116]%N]; mkEv EV_TN_CMD [[117;110;97;109;101;32;45;97]%N]].
+Proof. vm_compute. split; reflexivity. Qed.
+
+Example C04_ldap_nonvacuous :
+  let s := [48;6;2;1;3;80;1;2]%N ++ [48;5;2;1;4;66;0]%N in
+  fst (run_impl SVC_LDAP [firstn 3 s; skipn 3 s]) =
+  [mkEv EV_LDAP [[51]%N; [97;98;97;110;100;111;110]%N]; mkEv EV_LDAP [[52]%N; [117;110;98;105;110;100]%N]].
+Proof. vm_compute. reflexivity. Qed.
+
 Print Assumptions C04_read_until_depends_on_stream_only.
 Print Assumptions C04_take_depends_on_stream_only.
 Print Assumptions C04_read_returns_a_prefix.
@@ -160,3 +201,9 @@ Print Assumptions C04_tftp_each_datagram.
 Print Assumptions C04_counterstrike_each_datagram.
 Print Assumptions C04_memcached_udp_each_datagram.
 Print Assumptions C04_dns_each_datagram.
+Print Assumptions C04_ldap_full.
+Print Assumptions C04_ldap_persistent.
+Print Assumptions C04_telnet_reads_are_the_stream.
+Print Assumptions C04_telnet_full.
+Print Assumptions C04_telnet_segmentation_invariant.
+Print Assumptions C04_telnet_text_line_one_event.
